@@ -24,6 +24,17 @@ pub fn cfg_for(profile: &str, rng: &mut Rng) -> GenCfg {
             n_cmds: (10, 26),
             ..Default::default()
         },
+        // fragment the term/proof encoder supports, order-revealing outputs (C20 in encoded modes)
+        "enc" => GenCfg {
+            containers: rng.chance(1, 4),
+            subsume: rng.chance(1, 3),
+            pushpop: rng.chance(1, 4),
+            extracts: true,
+            prints: true,
+            n_cmds: (8, 20),
+            one_container_per_kind: true,
+            ..Default::default()
+        },
         // everything, biased to order-revealing outputs (C20)
         _ => GenCfg {
             containers: rng.chance(1, 2),
@@ -83,11 +94,19 @@ pub fn run(a: &Args) -> Report {
     }
     let root = Rng::new(a.seed);
     let mut cases = vec![];
-    for case in 0..n {
+    // optional fixed files (the repo's own programs) appended after the generated cases
+    let files: Vec<String> = a.get("files").map(|s| s.split(',').filter(|x| !x.is_empty()).map(|x| x.to_string()).collect()).unwrap_or_default();
+    for case in 0..(n + files.len() as u64) {
         let mut rng = root.fork(case);
-        let cfg = cfg_for(&profile, &mut rng);
-        let (_sig, cmds) = pgen::gen_history(&mut rng, &cfg);
-        let texts: Vec<String> = cmds.iter().map(|c| c.to_string()).collect();
+        let texts: Vec<String> = if case < n {
+            let cfg = cfg_for(&profile, &mut rng);
+            let (_sig, cmds) = pgen::gen_history(&mut rng, &cfg);
+            cmds.iter().map(|c| c.to_string()).collect()
+        } else {
+            let f = &files[(case - n) as usize];
+            rep.count("repo_files", 1);
+            crate::exec::split_toplevel(&std::fs::read_to_string(f).unwrap_or_default())
+        };
         let mut eg = crate::exec::new_egraph(&mode, a.threads);
         let mut full = String::new();
         let mut stable = String::new();
